@@ -45,9 +45,9 @@ def space_time(draw, lay):
 
 @st.composite
 def spec1d_case(draw, layouts=LAYOUTS, min_nf=2, max_nf=40, kinds=VALUE_KINDS,
-                allow_zero_f=True, moments="disc", max_len=4):
+                allow_zero_f=True, moments="disc", max_len=4, min_len=1):
     f = draw(freq_grid(min_nf, max_nf, allow_zero=allow_zero_f))
-    lay = draw(layout(layouts, max_len=max_len))
+    lay = draw(layout(layouts, max_len=max_len, min_len=min_len))
     n = int(np.prod(lay["shape"])) if lay["shape"] else 1
     kind = draw(st.sampled_from(kinds))
     seed = draw(st.integers(0, 2 ** 32 - 1))
@@ -90,11 +90,11 @@ def spec1d_case(draw, layouts=LAYOUTS, min_nf=2, max_nf=40, kinds=VALUE_KINDS,
 @st.composite
 def spec2d_case(draw, layouts=LAYOUTS, min_nf=2, max_nf=24, min_nd=8, max_nd=144,
                 uniform_only=False, allowed_nd=None, kinds=VALUE_KINDS, allow_zero_f=True,
-                max_len=3, max_cells=40000):
+                max_len=3, max_cells=40000, min_len=1):
     f = draw(freq_grid(min_nf, max_nf, allow_zero=allow_zero_f))
     dg = draw(dir_grid(min_nd, max_nd, uniform_only=uniform_only, allowed_n=allowed_nd))
     nf, nd = len(f), len(dg["dir"])
-    lay = draw(layout(layouts, max_len=max_len))
+    lay = draw(layout(layouts, max_len=max_len, min_len=min_len))
     n = int(np.prod(lay["shape"])) if lay["shape"] else 1
     while n * nf * nd > max_cells and lay["shape"]:
         lay = {"layout": lay["layout"], "shape": [max(1, s // 2) for s in lay["shape"]]}
